@@ -267,6 +267,8 @@ pub fn run(tier: Tier) -> i32 {
         Box::new(string_family()),
         Box::new(crate::families::scale_family(true)),
         Box::new(crate::families::sorted_run_family()),
+        Box::new(crate::families::file_header_family()),
+        Box::new(crate::families::far_apart_family_level(1)),
         Box::new(crate::families::unicode_family()),
         Box::new(crate::families::relation_family()),
         Box::new(crate::families::huge_family(0)),
